@@ -38,6 +38,10 @@ def run(sh):
         seed = core.stable_int(sh.seed, 'C05', 'scratch', i) % (1 << 40)
         engine_line.run_spec(sh, 'C05', modelgen.generate_scratch_batches(seed, pol[i % 4]), MONITORS, nontrivial,
                              prefix='scratch_')
+    # batches whose contents change between two buffers (a finish callback adds a hand-made part)
+    engine_line.run_profile(sh, 'C05', 'buffers', n // 4, MONITORS, nontrivial, prefix='inserts_',
+                            overrides={'p_insert': 0.6, 'p_value_cb': 0, 'p_batch_source': 0.9,
+                                       'stage_w': {'buffer': 6, 'processor': 4, 'batcher': 1}}, tag='inserts')
     # user code (a gate's decider) failing in the middle of a multi-part release; the caller carries on
     for i in sh.share(max(24, n // 10)):
         seed = core.stable_int(sh.seed, 'C05', 'errbuf', i) % (1 << 40)
